@@ -122,6 +122,12 @@ for _n in ("K_ONES_STEP4 K_ONES_STEP8 K_LAMBDAS_STEP8 SIW_M1 SIW_M2 SIW_M3 SIW_P
     T3_COVER[_n] = ("LeavesUtils.v", "theories/Proofs/LeavesUtilsOk.vo")
 for _n in "SB_SHIFT_GR BLK_BITS_GR BLK_MASK_GR SB_SHIFT_GC".split():
     T3_COVER[_n] = ("LeavesSB.v", "theories/Proofs/LeavesSBOk.vo")
+for _n in "RSN_SBR_BITS RSN_SBR_MASK".split():
+    T3_COVER[_n] = ("LeavesRSN.v", "theories/Proofs/LeavesRSNOk.vo")
+for _n in "RSW_SB_SHIFT_RD RSW_BLK_BITS_RD RSW_BLK_MASK".split():
+    T3_COVER[_n] = ("LeavesRSW.v", "theories/Proofs/LeavesRSWOk.vo")
+for _n in "QV_LEN_SHIFT".split():
+    T3_COVER[_n] = ("LeavesQV.v", "theories/Proofs/LeavesQVOk.vo")
 
 
 def coq_stage(prop):
@@ -206,7 +212,7 @@ def coq_stage(prop):
         m = re.search(r'File "([^"]+)", line (\d+)[^\n]*\n(Error:.*?)(?:\n\n|\Z)', out, flags=re.S)
         where = ("%s:%s %s" % (m.group(1), m.group(2), " ".join(m.group(3).split())[:300])) if m else out.strip()[-300:]
         notes = []
-        for gf in ("LeavesUtils.v", "LeavesLine.v", "LeavesSB.v"):
+        for gf in ("LeavesUtils.v", "LeavesLine.v", "LeavesSB.v", "LeavesRSN.v", "LeavesRSW.v", "LeavesQV.v"):
             try:
                 first = open(os.path.join(COQ, "theories", "Gen", gf)).readline()
             except OSError:
